@@ -96,6 +96,14 @@ def gaussian_copula_table(spec, shift=None):
         it += 1
     df = pd.DataFrame(dict(zip(column_names(d, names), cols)))
     df = df[column_names(d, names)]
+    if mix == 'integer':
+        # genuinely integer-typed columns
+        for j, c in enumerate(df.columns):
+            if j not in consts and margs[[k for k in range(d) if k not in consts].index(j)][0] == 'integer':
+                df[c] = df[c].astype(np.int64)
+    if names == 'int':
+        # a non-default row index (a permutation of 0..n-1): labels must never be used as positions
+        df.index = pd.Index(np.argsort((np.arange(n) * 7919) % n, kind='stable'))
     return df, {'R': R, 'marginals': margs, 'nonconst': [j for j in range(d) if j not in consts]}
 
 
